@@ -19,7 +19,7 @@ func cmdDispose(args []string) int {
 	reps := fs.Int("reps", 1, "repetitions of every scenario")
 	fs.Parse(args)
 	var scs []dispdrv.Scenario
-	for _, landing := range []string{"idle", "queue", "queueLong", "negotiation", "final", "eval", "evalQueued", "fromHandler", "fromFinal"} {
+	for _, landing := range []string{"idle", "queue", "queueLong", "negotiation", "final", "eval", "evalQueued", "fromHandler", "fromFinal", "subsCollect"} {
 		for _, how := range []string{"dispose", "force", "ctx", "twice", "disposeThenForce"} {
 			for _, h := range []bool{true, false} {
 				if !h && (landing == "negotiation" || landing == "final" || landing == "evalQueued" || landing == "fromHandler" || landing == "fromFinal") {
